@@ -474,16 +474,6 @@ class FrameError(Exception):
 TEXT_OK = re.compile(r'(?:\\[^a-zA-Z\[\]()]|[^\\{}$%])*', re.S)
 
 
-def _open_brackets(s):
-    n = 0
-    for ch in s:
-        if ch == '[':
-            n += 1
-        elif ch == ']' and n:
-            n -= 1
-    return n
-
-
 def _choose_sep(rng, cands, ok):
     if rng is not None:
         cands = list(cands)
